@@ -126,14 +126,27 @@ def players(report, db, S):
             okk = True
             removed = 0
             member = ('op', 'in', (uuid, tbl))
+            # del table[uuid] is a no-op for an unknown player when it is
+            # guarded by membership, or when the KeyError of the missing
+            # key is caught and nothing else happens on that path
+            absorbed = {}
             for p in paths:
                 for e in p.flat(('delitem',)):
-                    if struct(e.base) != tbl:
+                    if e.raised and struct(e.base) == tbl:
+                        quiet = not p.raises and not [
+                            x for x in p.flat(('call', 'store', 'setitem',
+                                               'delitem')) if x is not e]
+                        absorbed[id(e.node)] = absorbed.get(
+                            id(e.node), True) and quiet
+            for p in paths:
+                for e in p.flat(('delitem',)):
+                    if struct(e.base) != tbl or e.raised:
                         continue
                     removed += 1
-                    if struct(e.key) != uuid or not any(
+                    if struct(e.key) != uuid or not (any(
                             struct(a) == member and pol
-                            for a, pol, _ in p.conds_at(e)):
+                            for a, pol, _ in p.conds_at(e))
+                            or absorbed.get(id(e.node))):
                         okk = False
                 for e in p.calls():
                     if e.fn == ('attr', tbl, 'pop') or struct(e.fn) == (
@@ -481,61 +494,126 @@ def access_path(e, value_name='value'):
     return kind, path, wrapper
 
 
-def aliases(report, db):
+def aliases(report, db, S=None):
     R = report.rule('R20.4', 'alias factories: getter, setter and deleter '
                     'address the same attribute path; transforms are applied '
                     'in the right direction')
     mod = db.modules.get(MUTIL)
+    if S is None:
+        from ..callgraph import CallGraph
+        S = pathsum.PathSum(db, CallGraph(db), implicit_raises=False,
+                            inline_pred=pathsum.known_unit_pred())
+    me, val = sy('self'), sy('value')
+
+    def parts_of(v):
+        """fget/fset/fdel of a property(...) term"""
+        if not (v[0] == 'call' and v[1] in (('builtin', 'property'),
+                                            ('ext', 'builtins.property'))):
+            return None
+        out = dict(zip(('fget', 'fset', 'fdel'), v[2]))
+        out.update(dict(v[3]))
+        return out
+
     for fname in ('attribute_alias', 'partial_attribute_alias',
                   'attribute_transform'):
         fi = mod.funcs.get(fname)
         if fi is None:
             raise AnalysisError('%s vanished' % fname)
-        calls = [c for c in ast.walk(fi.node) if isinstance(c, ast.Call)
-                 and ast.unparse(c.func) == 'property']
-        if len(calls) != 1:
-            raise AnalysisError('%s: property(...) not found' % fname,
-                                fi.node, rel(fi.path))
-        kw = {k.arg: k.value for k in calls[0].keywords}
-        for i, a in enumerate(calls[0].args[:3]):
-            kw[('fget', 'fset', 'fdel')[i]] = a
-        if set(kw) != {'fget', 'fset', 'fdel'} or not all(
-                isinstance(v, ast.Lambda) for v in kw.values()):
+        # the descriptor the factory returns, applied: what does reading,
+        # writing and deleting the alias on `self` do?
+        got = {}
+        missing = []
+        for which, args in (('fget', [me]), ('fset', [me, val]),
+                            ('fdel', [me])):
+            def cont(S_, st, v, which=which, args=args):
+                parts = parts_of(v)
+                if parts is None:
+                    raise AnalysisError('%s does not return property(...)'
+                                        % fname, fi.node, rel(fi.path))
+                fn = parts.get(which)
+                if fn is None or fn == ('const', None):
+                    missing.append(which)
+                    return []
+                return S_.apply(fn, list(args), {}, st, fi, fi.node)
+            got[which] = S.run_then(fi, cont)
+        if missing:
             report.violation(R, 'alias:%s:parts' % fname, fi.path, fi.node,
-                             fi.qualname, 'the property lacks one of '
-                             'fget/fset/fdel: %s' % sorted(kw))
+                             fi.qualname, 'the property lacks %s'
+                             % sorted(missing))
             continue
-        vname = kw['fset'].args.args[1].arg if len(
-            kw['fset'].args.args) > 1 else 'value'
-        ap = {k: access_path(v.body, vname) for k, v in kw.items()}
-        if None in ap.values():
-            raise AnalysisError('%s: alias lambdas are not getattr/setattr/'
-                                'delattr chains on self' % fname, fi.node,
-                                rel(fi.path))
-        paths = {k: v[1] for k, v in ap.items()}
-        kinds = {k: v[0] for k, v in ap.items()}
-        want_path = list(fi.params[:2] if fname == 'partial_attribute_alias'
-                         else fi.params[:1])
+        name = sy(fi.params[0])
+        if fname == 'partial_attribute_alias':
+            target = ('op', 'getattr', (me, name))
+            attr = sy(fi.params[1])
+            where = 'self.<%s>.<%s>' % tuple(fi.params[:2])
+        else:
+            target, attr = me, name
+            where = 'self.<%s>' % fi.params[0]
         prob = []
-        if kinds != {'fget': 'get', 'fset': 'set', 'fdel': 'del'}:
-            prob.append('getter/setter/deleter do %s' % kinds)
-        for k, pth in sorted(paths.items()):
-            if pth != want_path:
-                prob.append('%s addresses self.%s instead of self.%s'
-                            % (k, '.'.join(pth), '.'.join(want_path)))
-        if fname == 'attribute_transform':
-            if ap['fget'][2] != fi.params[1] or ap['fset'][2] != fi.params[2]:
-                prob.append('transforms applied as get:%s set:%s; expected '
-                            'get:%s set:%s' % (ap['fget'][2], ap['fset'][2],
-                                               fi.params[1], fi.params[2]))
-        elif ap['fget'][2] or ap['fset'][2]:
-            prob.append('an alias must not transform the value')
+
+        def stores(p):
+            return [e for e in p.flat(('store', 'setitem', 'delitem'))]
+
+        def addr(e):
+            return 'self%s' % show(('op', 'getattr', (e.base, e.attr)))[4:] \
+                if False else '%s . %s' % (show(e.base), show(e.attr)
+                                           if isinstance(e.attr, tuple)
+                                           else e.attr)
+        # getter
+        for p in got['fget']:
+            if not p.returns or stores(p):
+                prob.append('the getter does not just read')
+                continue
+            v = p.value
+            want = ('op', 'getattr', (target, attr))
+            if fname == 'attribute_transform':
+                f = sy(fi.params[1])
+                if not (v[0] == 'call' and struct(v[1]) == f and
+                        [struct(x) for x in v[2]] == [want] and not v[3]):
+                    prob.append('the getter returns %s; expected %s(%s)'
+                                % (show(v), fi.params[1], where))
+            elif struct(v) != want:
+                prob.append('the getter reads %s instead of %s'
+                            % (show(v), where))
+        # setter
+        for p in got['fset']:
+            ss = stores(p)
+            if len(ss) != 1 or ss[0].kind != 'store' or \
+                    ss[0].value == ('deleted',):
+                prob.append('the setter does not store exactly once')
+                continue
+            e = ss[0]
+            if struct(e.base) != target or e.attr != attr:
+                prob.append('the setter addresses %s instead of %s'
+                            % (addr(e), where))
+            v = e.value
+            if fname == 'attribute_transform':
+                f = sy(fi.params[2])
+                if not (v[0] == 'call' and struct(v[1]) == f and
+                        [struct(x) for x in v[2]] == [val] and not v[3]):
+                    prob.append('the setter stores %s; expected %s(value)'
+                                % (show(v), fi.params[2]))
+            elif struct(v) != val:
+                prob.append('an alias must not transform the value (stores '
+                            '%s)' % show(v))
+        # deleter
+        for p in got['fdel']:
+            ss = stores(p)
+            if len(ss) != 1 or ss[0].value != ('deleted',):
+                prob.append('the deleter does not delete exactly once')
+                continue
+            e = ss[0]
+            if struct(e.base) != target or e.attr != attr:
+                prob.append('the deleter addresses %s instead of %s'
+                            % (addr(e), where))
+        for k in ('fget', 'fset', 'fdel'):
+            if len(got[k]) != 1:
+                prob.append('%s has %d paths' % (k, len(got[k])))
         if prob:
             report.violation(R, 'alias:%s' % fname, fi.path, fi.node,
-                             fi.qualname, '; '.join(prob))
+                             fi.qualname, '; '.join(sorted(set(prob))))
         else:
-            report.ok(R, '%s: get/set/del all address self.%s' % (
-                fname, '.'.join(want_path)))
+            report.ok(R, '%s: get/set/del all address %s' % (fname, where))
     fi = mod.funcs.get('multi_attribute_alias')
     if fi is None:
         raise AnalysisError('multi_attribute_alias vanished')
@@ -637,7 +715,8 @@ def records(report, db, S):
                 for t in pathsum.subterms(p.value or ()))
     hget = any(t[0] == 'op' and t[1] == 'getattr' and struct(t[2][0]) == hme
                and t[2][1][0] == 'elem' for p in ph
-               for t in pathsum.subterms(p.value or ()))
+               for t in list(pathsum.subterms(p.value or ()))
+               + list(path_terms(p)))
     if len(its) == 1 and len(hits) == 1 and all(
             is_slots(t) for t in its | hits) and cmp_seen and type_ok and htype and hget:
         report.ok(R, '__eq__ and __hash__ both range over _all_slots() and '
